@@ -6,7 +6,8 @@ WHICH = ["Method.CalculateFunctionals", "OptimizationTask.Calculate", "Method.Fi
          "Process.DoGlobalIteration", "Process.problemCalculate", "Process.DoLocalRefinement"]
 EXTRA = [
     "global phase: CalculateFunctionals REQUIRES its point to be inbox(evolvent, .); the requirement is discharged at every call "
-    "site from GetImage's post-condition (the abstract of C07's proved 'image strictly inside the box'); OptimizationTask."
+    "site from GetImage's post-condition (the abstract of the 'image strictly inside the box' contract, which this check re-proves "
+    "on the real evolvent code for N = 1..5, symbolic density and box); OptimizationTask."
     "Calculate evaluates the objective at exactly that point - for every objective (it only enters through its interface contract)",
     "the evolvent's box is the problem's box (Solver.__init__ post-condition, verified under C20)",
     "refinement: scipy.optimize.minimize is a dependency behind an ASSUMED contract whose in-box guarantee has `bounds=` as its "
@@ -18,6 +19,11 @@ EXTRA = [
 
 def run(tier, seed):
     def post(chk):
+        # the premise "every image lies in the box" is re-proved here on the real evolvent code (the contracts of C07/C17:
+        # node, __GetYonX, __TransformP2D, GetImage, __init__ for N = 1..5), so that a change inside the evolvent that
+        # moves images out of the box fails an obligation of THIS check
+        from . import evolvent_common as ec
+        ec.run_parallel(chk, ("node", "getyonx", "p2d", "getimage", "init"), (), ())
         chk.bounded.append(dict(what="SciPy Nelder-Mead against the assumed contract: native refining Solve runs on monotone / "
                                      "boundary-minimum objectives in dimension 1..3 (native/method_oracle.py mode c05)",
                                 bound="15 runs", counted_as_proof=False))
